@@ -519,6 +519,8 @@ class Engine:
                             if h.det_ok(t2, l2, hd2) and taken.get((t2, l2), hd2) == hd2:
                                 taken[(t2, l2)] = hd2
                                 more.append([t2, hd2, l2])
+                        if more and rng.random() < 0.3:
+                            more.append(list(rng.choice(more + [[t, hd, l]])))   # the same edge twice in one call
                         if more:
                             op["more"] = more
                             op.pop("ignore_redundant", None)
